@@ -1274,6 +1274,9 @@ def _make_builtin_module(it, full):
     elif full == 'copy':
         A['copy'] = Builtin('copy.copy', lambda it2, a, k: _lib_call(it2, 'copy.copy', a, k))
         A['deepcopy'] = Builtin('copy.deepcopy', lambda it2, a, k: _lib_call(it2, 'copy.deepcopy', a, k))
+    elif full == 'types':
+        # read-only view of a dict: lookups behave like the dict's (A-LIB)
+        A['MappingProxyType'] = Builtin('types.MappingProxyType', lambda it2, a, k: a[0])
     elif full == 'string':
         import string as _s
         for n in ('ascii_letters', 'ascii_lowercase', 'ascii_uppercase', 'digits', 'punctuation', 'whitespace'):
